@@ -805,8 +805,10 @@ def r_cumul(E):
     res.instances += 1
     from ..astutil import nodes_through_helpers as _nthr
     _sf = pm.helper_finder("Storage")
+    # the `if` that directly guards the raise (not an enclosing one: `if not empty: … if min < threshold: raise`)
     chk = [n for n in ast.walk(fn) if isinstance(n, ast.If) and any(
-        isinstance(x, ast.Raise) for st_ in n.body for x in _nthr(st_, _sf, depth=2))]
+        isinstance(x, ast.Raise) for st_ in n.body if not isinstance(st_, (ast.If, ast.For, ast.While, ast.Try, ast.With))
+        for x in _nthr(st_, _sf, depth=2))]
     asg = [n for n in ast.walk(fn) if isinstance(n, ast.Assign) and norm(n.targets[0]) == "self.full_cumulative_storage_need"
            and "EmptyExplainableObject" not in norm(n.value)]
     if not chk:
